@@ -87,15 +87,61 @@ package internal
 // committed between the snapshot and the creation of the watch is delivered, none is lost
 //@ func (c *cluster) reload closure 0
 //@   property C13
+//@   float real
+//@   requires implies(inDom(c.watchers, k), c.watchers[k] != nil && c.watchers[k].values != nil) && mathx.UnstableOK(coolDownUnstable)
 //@   ghost at after load#0: rv = ret
 //@   call load#0: assert arg_cli == cli && arg_key == k
 //@   call watch#0: assert arg_cli == cli && arg_key == k && arg_rev == rv
 //@ func (c *cluster) monitor closure 0
 //@   property C13
 //@   call watch#0: assert arg_cli == cli && arg_key == key && arg_rev == rev
+// (the watcher table's shape - every registered watcher is non-nil with a non-nil value map - is an invariant of the
+// cluster that every function here assumes and re-establishes; getClient's frame is trusted: it does not touch the table)
+//@ func newWatchValue
+//@   property C13
+//@   ensures fresh(result) && result.values != nil
+//@   modifies nothing
+//@   allocates
+//@ func (c *cluster) addListener
+//@   property C13
+//@   flag nolock
+//@   requires c.watchers != nil && implies(inDom(c.watchers, key), c.watchers[key] != nil && c.watchers[key].values != nil)
+//@   ensures  inDom(c.watchers, key) && c.watchers[key] != nil && c.watchers[key].values != nil
+//@ func (c *cluster) getClient
+//@   trusted
+//@   modifies nothing
+//@   allocates
 //@ func (c *cluster) monitor
 //@   property C13
+//@   float real
+//@   requires c.watchers != nil && implies(inDom(c.watchers, key), c.watchers[key] != nil && c.watchers[key].values != nil) && mathx.UnstableOK(coolDownUnstable)
 //@   ghost at entry: added = false
 //@   ghost at after addListener#0: added = true
 //@   call addListener#0: assert arg_key == key && arg_l == l
 //@   call load#0: assert added && arg_key == key
+
+// a (re)load replaces the cached values by the snapshot it got - also when the snapshot is empty (all instances gone while
+// the watch was down): handleChanges runs exactly once per load, with this key, after the successful Get
+// (the etcd client is opaque: it does not touch the cluster's watcher table - trusted frame)
+//@ extern func (c EtcdClient) Get
+//@   modifies nothing
+//@   allocates
+//@ extern func (c EtcdClient) Ctx
+//@   modifies nothing
+//@ func makeKeyPrefix
+//@   property C13
+//@   modifies nothing
+//@   allocates
+//@ func (c *cluster) load
+//@   property C13
+//@   float real
+//@   flag callbacks_noheap
+//@   requires implies(inDom(c.watchers, key), c.watchers[key] != nil && c.watchers[key].values != nil) && mathx.UnstableOK(coolDownUnstable)
+//@   ghost at entry: handled = 0
+//@   ghost at after handleChanges#0: handled = handled + 1
+//@   loop 0: modifies calls
+//@   loop 0: invariant handled == 0
+//@   loop 1: modifies nothing
+//@   loop 1: invariant handled == 0 && len(kvs) == idx
+//@   call handleChanges#0: assert arg_key == key && len(arg_kvs) == len(resp.Kvs)
+//@   ensures handled == 1
